@@ -35,8 +35,19 @@ class Pools:
 
     def snapshot(self):
         rm = self.rm
-        return ({n: (rm.get_resource_usage(n), rm.get_resource_capacity(n)) for n in NAMES},
-                [norm(r.reserved_resources) for r in self.res])
+        hold = []
+        for r in self.res:
+            got = r.reserved_resources
+            keep = dict(got)
+            # what the accessor hands out is the caller's to edit: the reservation itself must not change
+            got['__edited_by_caller'] = 1
+            got.clear()
+            again = r.reserved_resources
+            if again != keep:
+                raise Violation('C09.holding', f'editing the dictionary returned by reserved_resources changed the '
+                                f'reservation from {keep} to {again}')
+            hold.append(norm(keep))
+        return ({n: (rm.get_resource_usage(n), rm.get_resource_capacity(n)) for n in NAMES}, hold)
 
     def step(self, op):
         rm = self.rm
@@ -238,10 +249,11 @@ class PureWaiters:
         m.clear()
         self.pending += 1
 
-    def register(self, req, beh, mutate=False):
-        self.wid += 1
-        self.wait.append((dict(req), beh, self.wid))
-        self.pending += 1
+    def register(self, req, beh, mutate=False, twice=False):
+        for _ in range(2 if twice else 1):
+            self.wid += 1
+            self.wait.append((dict(req), beh, self.wid))
+            self.pending += 1
 
     def behave(self, b, req):
         k = b[0]
@@ -307,19 +319,34 @@ class RealWaiters:
         if self.res:
             self.res[i % len(self.res)].release()
 
-    def register(self, req, beh, mutate=False):
+    def register(self, req, beh, mutate=False, twice=False):
+        if twice:
+            # the very same call repeated: equal request, the same callback object -> two waiters, two call-backs
+            self.wid += 1
+            first = self.wid
+            self._register(req, beh, False, [first, first + 1])
+            self.wid += 1
+            return
         self.wid += 1
-        wid = self.wid
+        self._register(req, beh, mutate, [self.wid])
+
+    def _register(self, req, beh, mutate, wids):
         mine = dict(req)
-        self.waiting[wid] = (dict(req), order_fixed(beh))
+        pending = list(wids)
+        for w in wids:
+            self.waiting[w] = (dict(req), order_fixed(beh))
+            self.c['registered'] += 1
         if not order_fixed(beh):
             self.all_order_fixed = False
-        self.c['registered'] += 1
         if self.depth:
             self.c['from_inside'] += 1
 
         def cb(rm, request):
             PROGRESS[0] += 1
+            if not pending:
+                raise Violation('C10.once', f'callback of waiter(s) {wids} ({req}) invoked more often than it was '
+                                f'registered (at {self.env.now})')
+            wid = pending.pop(0)
             self.calls[wid] = self.calls.get(wid, 0) + 1
             if self.calls[wid] > 1:
                 raise Violation('C10.once', f'callback of waiter {wid} ({req}) invoked {self.calls[wid]} times '
@@ -349,7 +376,8 @@ class RealWaiters:
                 self.behave(beh, request)
             finally:
                 self.depth -= 1
-        self.rm.reserve_resources_with_callback(mine, cb)
+        for _ in wids:
+            self.rm.reserve_resources_with_callback(mine, cb)
         if mutate:
             # the caller re-uses its dictionary: what was registered is the request as it was at registration
             for n in list(mine):
